@@ -321,4 +321,333 @@ theorem invT_run (cfg : Cfg) (evs : List Ev) {s : State} (hI : InvT s) : InvT (r
   | nil => exact hI
   | cons e rest ih => exact ih (invT_step cfg hI e)
 
+/-! ### workers -/
+
+structure InvB (cfg : Cfg) (s : State) : Prop where
+  /-- a run executes on the worker its id hashes to -/
+  wk : ∀ b ∈ s.busy, b.1 = cfg.wk b.2.id
+  /-- a worker executes one run at a time -/
+  uniq : (s.busy.map (·.1)).Nodup
+
+theorem workerBusy_iff (busy : List (Nat × Run)) (w : Nat) :
+    workerBusy busy w = true ↔ w ∈ busy.map (·.1) := by
+  unfold workerBusy
+  simp
+
+theorem dispatch_busy (cfg : Cfg) (now : Int) (q : List Item) (busy : List (Nat × Run))
+    (hw : ∀ b ∈ busy, b.1 = cfg.wk b.2.id) (hu : (busy.map (·.1)).Nodup) :
+    (∀ b ∈ (dispatch cfg now q busy).busy, b.1 = cfg.wk b.2.id) ∧
+      ((dispatch cfg now q busy).busy.map (·.1)).Nodup := by
+  induction q generalizing busy with
+  | nil => unfold dispatch; exact ⟨hw, hu⟩
+  | cons it rest ih =>
+    unfold dispatch
+    split
+    · exact ⟨hw, hu⟩
+    · split
+      · exact ih busy hw hu
+      · next hnb =>
+        have hnb' : cfg.wk it.id ∉ busy.map (·.1) := by
+          rw [← workerBusy_iff]; simpa using hnb
+        have hw' : ∀ b ∈ (cfg.wk it.id, ({ id := it.id, sf := it.next, runAt := it.when } : Run)) :: busy,
+            b.1 = cfg.wk b.2.id := by
+          intro b hb
+          rcases List.mem_cons.mp hb with rfl | hb
+          · rfl
+          · exact hw b hb
+        have hu' : (((cfg.wk it.id, ({ id := it.id, sf := it.next, runAt := it.when } : Run)) :: busy).map (·.1)).Nodup := by
+          simp only [List.map_cons, List.nodup_cons]
+          exact ⟨hnb', hu⟩
+        have := ih _ hw' hu'
+        split <;> exact this
+
+theorem invB_init (cfg : Cfg) : InvB cfg init := ⟨by simp [init], by simp [init]⟩
+
+theorem invB_afterProcess {cfg : Cfg} {s : State} (h : InvB cfg s) : InvB cfg (afterProcess s) := by
+  unfold afterProcess
+  split
+  · exact ⟨h.wk, h.uniq⟩
+  · split <;> exact ⟨h.wk, h.uniq⟩
+
+theorem invB_step (r : Bool) (cfg : Cfg) {s : State} (hI : InvB cfg s) (e : Ev) : InvB cfg (stepEv r cfg s e) := by
+  cases e with
+  | schedule id c off last =>
+    simp only [stepEv]
+    cases h : schedule s id c off last with
+    | none => simpa using hI
+    | some s' =>
+      simp only [Option.getD_some]
+      obtain ⟨nt, _, rfl⟩ := schedule_some h
+      have hb := (armFor_fields s { id := id, next := nt, offset := off, cron := c }).2.2.2.2.1
+      exact ⟨by simp only [hb]; exact hI.wk, by simp only [hb]; exact hI.uniq⟩
+  | release id => exact ⟨hI.wk, hI.uniq⟩
+  | advance d => exact ⟨hI.wk, hI.uniq⟩
+  | timerFire =>
+    simp only [stepEv]
+    split
+    · exact ⟨hI.wk, hI.uniq⟩
+    · exact hI
+  | wake =>
+    simp only [stepEv]
+    split
+    · exact ⟨hI.wk, hI.uniq⟩
+    · exact hI
+  | iter =>
+    simp only [stepEv]
+    unfold iter
+    split
+    · exact hI
+    · split
+      · exact ⟨hI.wk, hI.uniq⟩
+      · split
+        · unfold notDue; split <;> exact ⟨hI.wk, hI.uniq⟩
+        · apply invB_afterProcess
+          have := dispatch_busy cfg s.now s.queue s.busy hI.wk hI.uniq
+          exact ⟨this.1, this.2⟩
+  | done w =>
+    simp only [stepEv]
+    split
+    · exact hI
+    · refine ⟨?_, ?_⟩
+      · intro b hb
+        exact hI.wk b (List.mem_filter.mp hb).1
+      · exact List.Nodup.sublist (List.Sublist.map _ List.filter_sublist) hI.uniq
+
+theorem invB_run (r : Bool) (cfg : Cfg) (evs : List Ev) {s : State} (hI : InvB cfg s) :
+    InvB cfg (runEvs r cfg s evs) := by
+  induction evs generalizing s with
+  | nil => exact hI
+  | cons e rest ih => exact ih (invB_step r cfg hI e)
+
+/-- no two executions of one id at the same time -/
+theorem busy_ids_nodup {cfg : Cfg} {s : State} (h : InvB cfg s) : (s.busy.map (·.2.id)).Nodup := by
+  have hu := h.uniq
+  have hw := h.wk
+  generalize s.busy = l at hu hw
+  induction l with
+  | nil => simp
+  | cons b bs ih =>
+    simp only [List.map_cons, List.nodup_cons] at hu ⊢
+    refine ⟨?_, ih hu.2 (fun x hx => hw x (by simp [hx]))⟩
+    intro hmem
+    obtain ⟨x, hx, hid⟩ := List.mem_map.mp hmem
+    apply hu.1
+    have h1 := hw b (by simp)
+    have h2 := hw x (by simp [hx])
+    exact List.mem_map.mpr ⟨x, hx, by rw [h2, h1, hid]⟩
+
+
+/-! ### ids in the queue are unique (`nextTime` is a map) -/
+
+def ids (q : List Item) : List Nat := q.map (·.id)
+
+def runIds (rs : List (Nat × Run)) : List Nat := rs.map (·.2.id)
+
+theorem ids_insertItem_perm (it : Item) (q : List Item) : (ids (insertItem it q)).Perm (it.id :: ids q) := by
+  induction q with
+  | nil => simp [insertItem, ids]
+  | cons x xs ih =>
+    unfold insertItem
+    cases h : it.lt x with
+    | true => simp [ids]
+    | false =>
+      simp only [Bool.false_eq_true, if_false]
+      have : ids (x :: insertItem it xs) = x.id :: ids (insertItem it xs) := rfl
+      rw [this]
+      have h2 : ids (x :: xs) = x.id :: ids xs := rfl
+      rw [h2]
+      exact ((List.Perm.cons x.id ih).trans (List.Perm.swap it.id x.id (ids xs)))
+
+theorem ids_reinsert_perm (ins kept : List Item) : (ids (reinsert ins kept)).Perm (ids ins ++ ids kept) := by
+  unfold reinsert
+  induction ins generalizing kept with
+  | nil => simp [ids]
+  | cons x xs ih =>
+    simp only [List.foldl_cons]
+    refine (ih (insertItem x kept)).trans ?_
+    have h1 : ids (x :: xs) = x.id :: ids xs := rfl
+    rw [h1]
+    have := ids_insertItem_perm x kept
+    refine (List.Perm.append_left (ids xs) this).trans ?_
+    simp only [List.cons_append]
+    exact (List.perm_middle)
+
+theorem ids_removeId (id : Nat) (q : List Item) : id ∉ ids (removeId id q) := by
+  unfold ids removeId
+  simp
+
+theorem ids_removeId_sublist (id : Nat) (q : List Item) : (ids (removeId id q)).Sublist (ids q) := by
+  unfold ids removeId
+  exact List.Sublist.map _ List.filter_sublist
+
+/-- the ids touched by a dispatch pass: kept, and dispatched (each at most once, all from the queue) -/
+theorem dispatch_ids (cfg : Cfg) (now : Int) (q : List Item) (busy : List (Nat × Run))
+    (hn : (ids q).Nodup) :
+    (∀ i ∈ ids (dispatch cfg now q busy).kept ++ runIds (dispatch cfg now q busy).runs, i ∈ ids q) ∧
+      (ids (dispatch cfg now q busy).kept ++ runIds (dispatch cfg now q busy).runs).Nodup := by
+  induction q generalizing busy with
+  | nil => simp [dispatch, ids, runIds]
+  | cons it rest ih =>
+    have hn' : (ids rest).Nodup := (List.nodup_cons.mp hn).2
+    have hni : it.id ∉ ids rest := (List.nodup_cons.mp hn).1
+    unfold dispatch
+    split
+    · simp only [runIds, List.map_nil, List.append_nil]
+      exact ⟨fun i hi => hi, hn⟩
+    · split
+      · have ⟨h1, h2⟩ := ih busy hn'
+        refine ⟨?_, ?_⟩
+        · intro i hi
+          simp only [ids, List.map_cons, List.cons_append, List.mem_cons] at hi ⊢
+          rcases hi with rfl | hi
+          · exact Or.inl rfl
+          · exact Or.inr (h1 i hi)
+        · simp only [ids, List.map_cons, List.cons_append, List.nodup_cons]
+          exact ⟨fun hmem => hni (h1 _ hmem), h2⟩
+      · have ⟨h1, h2⟩ := ih ((cfg.wk it.id, { id := it.id, sf := it.next, runAt := it.when }) :: busy) hn'
+        have key : (∀ i ∈ ids (dispatch cfg now rest ((cfg.wk it.id, { id := it.id, sf := it.next, runAt := it.when }) :: busy)).kept ++
+              (it.id :: runIds (dispatch cfg now rest ((cfg.wk it.id, { id := it.id, sf := it.next, runAt := it.when }) :: busy)).runs),
+              i ∈ ids (it :: rest)) ∧
+            (ids (dispatch cfg now rest ((cfg.wk it.id, { id := it.id, sf := it.next, runAt := it.when }) :: busy)).kept ++
+              (it.id :: runIds (dispatch cfg now rest ((cfg.wk it.id, { id := it.id, sf := it.next, runAt := it.when }) :: busy)).runs)).Nodup := by
+          refine ⟨?_, ?_⟩
+          · intro i hi
+            simp only [List.mem_append, List.mem_cons] at hi
+            simp only [ids, List.map_cons, List.mem_cons]
+            rcases hi with hi | rfl | hi
+            · exact Or.inr (h1 i (List.mem_append_left _ hi))
+            · exact Or.inl rfl
+            · exact Or.inr (h1 i (List.mem_append_right _ hi))
+          · rw [List.perm_middle.nodup_iff, List.nodup_cons]
+            exact ⟨fun hmem => hni (h1 _ hmem), h2⟩
+        split <;> simpa [runIds] using key
+
+structure InvU (s : State) : Prop where
+  uniq : (ids s.queue).Nodup
+
+
+theorem dispatch_ins_sublist (cfg : Cfg) (now : Int) (q : List Item) (busy : List (Nat × Run)) :
+    (ids (dispatch cfg now q busy).ins).Sublist (runIds (dispatch cfg now q busy).runs) := by
+  induction q generalizing busy with
+  | nil => simp [dispatch, ids, runIds]
+  | cons it rest ih =>
+    unfold dispatch
+    split
+    · simp [ids, runIds]
+    · split
+      · exact ih busy
+      · split
+        · exact List.Sublist.cons _ (ih _)
+        · exact List.Sublist.cons_cons _ (ih _)
+
+/-- every dispatched run is the head run of a due queue item -/
+theorem dispatch_runs (cfg : Cfg) (now : Int) (q : List Item) (busy : List (Nat × Run)) :
+    ∀ wr ∈ (dispatch cfg now q busy).runs,
+      ∃ y ∈ q, wr = (cfg.wk y.id, ({ id := y.id, sf := y.next, runAt := y.when } : Run)) ∧ y.when ≤ now := by
+  induction q generalizing busy with
+  | nil => simp [dispatch]
+  | cons it rest ih =>
+    unfold dispatch
+    split
+    · simp
+    · next hdue =>
+      have hdue' : it.when ≤ now := by omega
+      split
+      · intro wr hwr
+        obtain ⟨y, hy, h⟩ := ih busy wr hwr
+        exact ⟨y, List.mem_cons_of_mem _ hy, h⟩
+      · have key : ∀ wr ∈ (cfg.wk it.id, ({ id := it.id, sf := it.next, runAt := it.when } : Run)) ::
+              (dispatch cfg now rest ((cfg.wk it.id, { id := it.id, sf := it.next, runAt := it.when }) :: busy)).runs,
+            ∃ y ∈ it :: rest, wr = (cfg.wk y.id, ({ id := y.id, sf := y.next, runAt := y.when } : Run)) ∧ y.when ≤ now := by
+          intro wr hwr
+          rcases List.mem_cons.mp hwr with rfl | hwr
+          · exact ⟨it, by simp, rfl, hdue'⟩
+          · obtain ⟨y, hy, h⟩ := ih _ wr hwr
+            exact ⟨y, List.mem_cons_of_mem _ hy, h⟩
+        split <;> simpa using key
+
+/-- every re-inserted item is a dispatched item with `updateNext` applied -/
+theorem dispatch_ins (cfg : Cfg) (now : Int) (q : List Item) (busy : List (Nat × Run)) :
+    ∀ x ∈ (dispatch cfg now q busy).ins,
+      ∃ y ∈ q, ∃ n, y.cron y.next = some n ∧ x = { y with next := n } ∧
+        (cfg.wk y.id, ({ id := y.id, sf := y.next, runAt := y.when } : Run)) ∈ (dispatch cfg now q busy).runs := by
+  induction q generalizing busy with
+  | nil => simp [dispatch]
+  | cons it rest ih =>
+    unfold dispatch
+    split
+    · simp
+    · split
+      · intro x hx
+        obtain ⟨y, hy, n, h1, h2, h3⟩ := ih busy x hx
+        exact ⟨y, List.mem_cons_of_mem _ hy, n, h1, h2, h3⟩
+      · split
+        · intro x hx
+          obtain ⟨y, hy, n, h1, h2, h3⟩ := ih _ x hx
+          exact ⟨y, List.mem_cons_of_mem _ hy, n, h1, h2, List.mem_cons_of_mem _ h3⟩
+        · next n hn =>
+          intro x hx
+          rcases List.mem_cons.mp hx with rfl | hx
+          · exact ⟨it, by simp, n, hn, rfl, by simp⟩
+          · obtain ⟨y, hy, n', h1, h2, h3⟩ := ih _ x hx
+            exact ⟨y, List.mem_cons_of_mem _ hy, n', h1, h2, List.mem_cons_of_mem _ h3⟩
+
+theorem processStep_ids_nodup {s : State} (cfg : Cfg) (hn : (ids s.queue).Nodup) :
+    (ids (processStep cfg s).queue).Nodup := by
+  unfold processStep
+  simp only []
+  rw [(ids_reinsert_perm _ _).nodup_iff, List.perm_append_comm.nodup_iff]
+  have h := (dispatch_ids cfg s.now s.queue s.busy hn).2
+  exact List.Nodup.sublist (List.Sublist.append_left (dispatch_ins_sublist cfg s.now s.queue s.busy) _) h
+
+theorem afterProcess_queue (s : State) : (afterProcess s).queue = s.queue := by
+  unfold afterProcess; split
+  · rfl
+  · split <;> rfl
+
+theorem afterProcess_log (s : State) : (afterProcess s).log = s.log := by
+  unfold afterProcess; split
+  · rfl
+  · split <;> rfl
+
+theorem notDue_queue (r : Bool) (s : State) (it : Item) : (notDue r s it).queue = s.queue ∧ (notDue r s it).log = s.log := by
+  unfold notDue; split <;> simp
+
+theorem invU_init : InvU init := ⟨by simp [init, ids]⟩
+
+theorem invU_step (r : Bool) (cfg : Cfg) {s : State} (hI : InvU s) (e : Ev) : InvU (stepEv r cfg s e) := by
+  cases e with
+  | schedule id c off last =>
+    simp only [stepEv]
+    cases h : schedule s id c off last with
+    | none => simpa using hI
+    | some s' =>
+      simp only [Option.getD_some]
+      obtain ⟨nt, _, rfl⟩ := schedule_some h
+      refine ⟨?_⟩
+      simp only []
+      rw [(ids_insertItem_perm _ _).nodup_iff, List.nodup_cons]
+      exact ⟨ids_removeId id s.queue, List.Nodup.sublist (ids_removeId_sublist id s.queue) hI.uniq⟩
+  | release id => exact ⟨List.Nodup.sublist (ids_removeId_sublist id s.queue) hI.uniq⟩
+  | advance d => exact ⟨hI.uniq⟩
+  | timerFire => simp only [stepEv]; split <;> exact ⟨hI.uniq⟩
+  | wake => simp only [stepEv]; split <;> exact ⟨hI.uniq⟩
+  | iter =>
+    simp only [stepEv]
+    unfold iter
+    split
+    · exact hI
+    · split
+      · exact ⟨hI.uniq⟩
+      · split
+        · exact ⟨by rw [(notDue_queue r s _).1]; exact hI.uniq⟩
+        · exact ⟨by rw [afterProcess_queue]; exact processStep_ids_nodup cfg hI.uniq⟩
+  | done w => simp only [stepEv]; split <;> exact ⟨hI.uniq⟩
+
+theorem invU_run (r : Bool) (cfg : Cfg) (evs : List Ev) {s : State} (hI : InvU s) : InvU (runEvs r cfg s evs) := by
+  induction evs generalizing s with
+  | nil => exact hI
+  | cons e rest ih => exact ih (invU_step r cfg hI e)
+
+
 end Influx.Lemmas.Sched
